@@ -122,3 +122,10 @@ func TestC32Known(t *testing.T) {
 		t.Errorf("%s (region of %s): SELECT %s\n    -> %s", w.what, w.id, w.sql, msg)
 	}
 }
+
+// TestReplayC32 runs the SQL witness scripts in /verif/replays/C32.
+func TestReplayC32(t *testing.T) {
+	st := stats.New("C32", "replay")
+	defer st.Flush()
+	fx.ReplayDir(t, st)
+}
